@@ -119,12 +119,12 @@ def run_tlc_mc(module, cfg, workers=8, timeout=900, xmx="12g", tag=None, simulat
     return r
 
 
-def shard_trace(path, max_events=20000, start_event="Reset"):
+def shard_trace(path, max_events=20000):
     """Split an NDJSON trace at scenario boundaries. Returns [(shard_path, [(first_line, sc)])]."""
     shards = []
     cur, cur_idx, n = [], [], 0
     base = path[:-7] if path.endswith(".ndjson") else path
-    key = '"e":"%s"' % start_event
+    key = 'Reset"'       # every scenario starts with an event named ...Reset
 
     def flush():
         nonlocal cur, cur_idx
@@ -137,7 +137,7 @@ def shard_trace(path, max_events=20000, start_event="Reset"):
 
     with open(path) as f:
         for line in f:
-            if key in line:
+            if key in line and re.search(r'"e":"\w*Reset"', line):
                 if len(cur) >= max_events:
                     flush()
                 try:
@@ -182,7 +182,7 @@ def validate_traces(module, cfg, trace_path, index, max_events=20000, parallel=1
         nlines = sum(1 for _ in open(sp))
         events += nlines
         states += r["generated"]
-        accepted = r["completed"] and r["generated"] == nlines + 1 and not r["violated"] and r["rejected_at"] is None
+        accepted = r["completed"] and r["depth"] == nlines + 1 and not r["violated"] and r["rejected_at"] is None
         if accepted:
             continue
         if r["rc"] == 124:
